@@ -293,6 +293,37 @@ fn ipa_labels(ctx: &mut Ctx, rng: &mut ChaCha20Rng) {
     }
 }
 
+/// PST13 supports no degree bounds: a commitment presented with a degree bound and a degree-bound part must not
+/// be answered with a positive verification result.
+fn pst13_bounded_commitment(ctx: &mut Ctx, rng: &mut ChaCha20Rng) {
+    type S = Pst13S<E381>;
+    let tx = match gen_tx::<S>(rng, false, 2) {
+        Ok(t) => t,
+        Err(_) => return ctx.skipped("baseline", "honest pipeline refused (reported under C01)"),
+    };
+    let z = <S as Scheme>::gen_point(&tx.w.cfg, rng);
+    let idx: Vec<usize> = (0..tx.polys.len()).collect();
+    let vals: Vec<ark_bls12_381::Fr> = tx.polys.iter().map(|p| p.evaluate(&z)).collect();
+    let proof = match open::<S>(&tx, &idx, &z, &mut tx.sponge(), 2) {
+        Ok(p) => p,
+        Err(_) => return ctx.skipped("baseline", "honest open refused (reported under C01)"),
+    };
+    let base: Vec<&LComm<S>> = tx.c.comms.iter().collect();
+    if check::<S>(&tx.w.vk, &base, &z, &vals, &proof, &mut tx.sponge(), 2) != Out::Accept {
+        return ctx.skipped("baseline", "honest proof not accepted (reported under C01)");
+    }
+    let c0 = tx.c.comms[0].commitment();
+    let bound = range(rng, 1, tx.w.cfg.supported_degree);
+    for (how, shifted) in [("own-commitment", c0.comm), ("identity", ark_poly_commit::kzg10::Commitment(<<E381 as ark_ec::pairing::Pairing>::G1Affine as ark_ec::AffineRepr>::zero()))] {
+        let forged = ark_poly_commit::marlin_pc::Commitment::<E381> { comm: c0.comm, shifted_comm: Some(shifted) };
+        let lc: LComm<S> = LabeledCommitment::new(tx.c.comms[0].label().clone(), forged, Some(bound));
+        let mut cs: Vec<&LComm<S>> = tx.c.comms.iter().collect();
+        cs[0] = &lc;
+        let o = check::<S>(&tx.w.vk, &cs, &z, &vals, &proof, &mut tx.sponge(), 2);
+        not_accepted(ctx, "bound-on-scheme-without-bounds", "check", json!({"tx": tx.json(), "bound": bound, "degree_bound_part": how}), o);
+    }
+}
+
 fn direct(ctx: &mut Ctx, rng: &mut ChaCha20Rng) {
     use super::offtrait::kzg_world;
     use ark_poly_commit::kzg10::KZG10;
@@ -365,6 +396,7 @@ pub fn run(ctx: &mut Ctx) {
     let mut r0 = ctx.case_rng("setup", 0);
     setup_requests(ctx, &mut r0);
     let n = ctx.n(60, 1200);
+    ctx.run_cases("pst13/bounded-commitment", n / 4, |ctx, _i, rng| pst13_bounded_commitment(ctx, rng));
     ctx.run_cases("hyrax/vars", n, |ctx, _i, rng| multilinear::<HyraxS>(ctx, rng));
     ctx.run_cases("ligero-ml/vars", n, |ctx, _i, rng| multilinear::<MlLigeroS>(ctx, rng));
     ctx.run_cases("brakedown/vars", n / 2, |ctx, _i, rng| multilinear::<BrakedownS>(ctx, rng));
